@@ -69,6 +69,18 @@ def corpus(ctx, rng):
             jobs.append({"what": f"env {name}#{rep}", "text": gen.pdb_text(chains), "args": ["--ff=AMBER"]})
     for name, chains in damaged(rng):
         jobs.append({"what": name, "text": gen.pdb_text(chains), "args": ["--ff=PARSE"]})
+    # a carbon of another chain pressed against the group that will carry hydrogens (not a hydrogen-bond acceptor: the
+    # debumper has to turn the group, terminal -NH3+/-OH/-CH3 torsions included)
+    for x in gen.AMINO:
+        wantp = gen.POLAR_PARENTS.get(x, []) + [None]
+        for rep in range(10 if ctx.quick else 30):
+            for pn in wantp:
+                if pn is None and rep % 3:
+                    continue
+                got = gen.carbon_contact(rng, x, parent=pn, axial=bool(pn) and rep % 5 != 4)
+                if got:
+                    jobs.append({"what": got[1], "text": gen.pdb_text(got[0]), "args": [f"--ff={ffs[k % 6]}"] + ([] if k % 4 else ["--noopt"])})
+                    k += 1
     from .. import corpus as shared
     jobs += shared.variants(ctx.quick, rng)
     for kind, s in (("D", "ACGT"), ("R", "ACGU")):
